@@ -99,6 +99,21 @@ Definition rfind_c (c : N) (s : str) : option (str * str) :=
   | None => None
   end.
 
+(* s.find(pattern: &str): (text before the first occurrence, text after it) *)
+Fixpoint find_sub (p s : str) : option (str * str) :=
+  match s with
+  | [] => if is_empty p then Some ([], []) else None
+  | c :: r => if starts_with p s then Some ([], skipn (length p) s)
+              else match find_sub p r with Some (a, b) => Some (c :: a, b) | None => None end
+  end.
+(* s.splitn(2, char::is_whitespace) when it has two parts: (before the first white space, after it) *)
+Fixpoint split_first_ws (s : str) : option (str * str) :=
+  match s with
+  | [] => None
+  | c :: r => if is_ws c then Some ([], r)
+              else match split_first_ws r with Some (a, b) => Some (c :: a, b) | None => None end
+  end.
+
 (* str::split_whitespace *)
 Fixpoint split_ws_aux (cur : str) (s : str) : list str :=
   match s with
